@@ -407,12 +407,16 @@ fn run_nomax(out: &mut Out) {
         let status = loop {
             match child.try_wait().expect("wait") {
                 Some(s) => break Some(s),
-                None if t0.elapsed() > Duration::from_secs(120) => {
+                None if t0.elapsed() > Duration::from_secs(100) => {
                     let _ = child.kill();
                     let _ = child.wait();
                     break None;
                 }
-                None => std::thread::sleep(Duration::from_millis(20)),
+                None => {
+                    // waiting for the probe is progress of its own (the probe has its own deadline)
+                    tick(|| format!("nomax size {size} (waiting)"));
+                    std::thread::sleep(Duration::from_millis(20))
+                }
             }
         };
         let mut text = String::new();
